@@ -1618,6 +1618,14 @@ class HasRounds(GenericHandler):
         # replace max_desired_rounds
         if max_desired_rounds is None:
             max_desired_rounds = cls.max_desired_rounds
+            if (
+                explicit_min_rounds
+                and max_desired_rounds is not None
+                and max_desired_rounds < subcls.min_desired_rounds
+            ):
+                # new minimum lies above the inherited maximum: the explicit value wins,
+                # lift the maximum so the window doesn't end up empty.
+                max_desired_rounds = subcls.max_desired_rounds = subcls.min_desired_rounds
         else:
             if isinstance(max_desired_rounds, str):
                 max_desired_rounds = int(max_desired_rounds)
